@@ -6,7 +6,7 @@ META = {
     'rule': 'W-harness: every ASCII string of the stated length through the real tokenizer; '
             'oracle = scanner error with 0<=pos<=len, or spans defined, non-empty, contiguous 0..len.',
     'bounds': {
-        'quick': 'markup tokenize, stylesheet tokenize (property and value mode): all ASCII strings len<=2',
+        'quick': 'markup tokenize, stylesheet tokenize (property and value mode): all ASCII strings len<=2; 8 markup and 8 stylesheet prefixes (function names, custom properties, fields, escapes) + every suffix of <=2 characters',
         'thorough': 'the same for all ASCII strings len<=3 (partitioned by length and first-character class)',
     },
     'outside_claim': ['strings longer than the bound', 'code points >= 128',
@@ -88,9 +88,63 @@ def mk_css(L, lo, hi, value_mode):
             'functions': ['emmet.css_abbreviation.tokenizer.tokenize and all consumers']}
 
 
+M_PREFIXES = ['ul>li{x', 'a[b="', 'x$@-', 'a{${1:', 'a\\', 'a*', '(a)*2', 'a.b$#']
+C_PREFIXES = ['a1', 'scale3d', 'p--', 'c#f', 'a$b', 'lg(', 'p:"', 'a1(2,']
+
+
+def mk_prefixed(lang, pi, n, value_mode=False):
+    """valid (or half-typed) prefix + every suffix of <=n characters"""
+    if lang == 'markup':
+        from emmet.abbreviation import tokenize as tk
+        head = M_PREFIXES[pi]
+        run = lambda s: tk(s)
+    else:
+        from emmet.css_abbreviation import tokenize as tk
+        head = C_PREFIXES[pi]
+        run = lambda s: tk(s, value_mode)
+    from emmet.scanner import ScannerException
+
+    def h(R: str):
+        if len(R) > n:
+            return 'skip'
+        ok = True
+        for c in R:
+            ok = ok & (ord(c) < 128)
+        if not ok:
+            return 'skip'
+        s = head + R
+        try:
+            toks = run(s)
+        except ScannerException as e:
+            return True if 0 <= e.pos <= len(s) else 'error_pos_out_of_range'
+        return tiles(toks, len(s))
+
+    def twin(R: str):
+        if len(R) > n:
+            return 'skip'
+        s = head + R
+        try:
+            toks = run(s)
+        except ScannerException as e:
+            return True if e.pos > len(s) else 'twin'
+        return tiles(toks, len(s) + 1)
+    return {'fn': h, 'twin': twin, 'witnesses': [{'R': ''}, {'R': '('[:n]}, {'R': '}'[:n]}],
+            'assumptions': ['%s abbreviation = %r + R, R any ASCII string of <=%d characters%s' % (
+                lang, head, n, '; value mode' if value_mode else '')],
+            'functions': ['tokenize and all consumers (merge_tokens/create_literal, custom_property, escaped, field)']}
+
+
 def jobs(tier):
     n = 2 if tier == 'quick' else 3
     out = []
+    for pi in range(len(M_PREFIXES)):
+        out.append(Job('C18-b/prefixed/markup/p%02d' % pi, 'vf.props.c18:mk_prefixed', dict(lang='markup', pi=pi, n=n), shape='H',
+                       bound='prefix + <=%d chars' % n, budget=1500 if n == 2 else 6000, weight=50 ** n))
+    for pi in range(len(C_PREFIXES)):
+        for vm in ((False, True) if C_PREFIXES[pi] in ('a1', 'p--', 'lg(') or tier != 'quick' else (False,)):
+            out.append(Job('C18-b/prefixed/css-%s/p%02d' % ('value' if vm else 'prop', pi), 'vf.props.c18:mk_prefixed',
+                           dict(lang='css', pi=pi, n=n, value_mode=vm), shape='H', bound='prefix + <=%d chars' % n,
+                           budget=1500 if n == 2 else 6000, weight=50 ** n))
     for (L, lo, hi) in ascii_partitions(n):
         tag = 'len=%d,c0=[%d,%d)' % (L, lo, hi)
         big = L >= 3
